@@ -60,6 +60,9 @@ type Plan struct {
 	// dials to all others are refused until that peer has received the
 	// client's first getheaders (i.e. it is the sync peer).
 	FirstPeer int
+	// OldBelow, if > 0: the chain is spaced so that the blocks up to this
+	// height are more than 24 h old while the tip is recent.
+	OldBelow int32 `json:",omitempty"`
 }
 
 // PlanFromSeed derives a convergence scenario (pure function of seed, k).
@@ -149,6 +152,18 @@ func PlanFromSeed(seed int64, k int) Plan {
 		p.FirstPeer = 0
 		p.Extend, p.ReorgDepth = 0, 0
 	}
+	if k == 7 {
+		// A fixed scenario: the first peer is honest but stuck at height 60,
+		// a block more than 24 h old (a stale node); it states its height
+		// truthfully. The honest peer has the recent rest of the chain.
+		p.ChainLen = 120
+		p.Checkpoints = nil
+		p.Preset = chaingen.PresetNoRetarget
+		p.Peers = []PeerPlan{{Kind: BStale, At: 60}, {Kind: BHonest}}
+		p.FirstPeer = 0
+		p.OldBelow = 60
+		p.Extend, p.ReorgDepth = 2, 0
+	}
 	if k == 6 {
 		// A fixed scenario: the first peer is on the honest chain but has only
 		// its first 60 blocks, while its version message claims height 200.
@@ -213,7 +228,13 @@ func Build(p Plan) *Built {
 	if span > 20*time.Hour {
 		span = 20 * time.Hour
 	}
-	w := NewWorld(Config{Seed: p.Seed, Preset: p.Preset, Interval: p.Interval, SpacingSec: 4, GenesisAgo: span})
+	spacing := int64(4)
+	if p.OldBelow > 0 {
+		// Blocks up to height OldBelow are more than 24 h old, the tip is recent.
+		spacing = int64(25*time.Hour/time.Second)/int64(p.ChainLen-int(p.OldBelow)) + 1
+		span = time.Duration(int64(p.ChainLen+12)*spacing) * time.Second
+	}
+	w := NewWorld(Config{Seed: p.Seed, Preset: p.Preset, Interval: p.Interval, SpacingSec: spacing, GenesisAgo: span})
 	g := w.G
 	// Honest trunk: timestamps end near "now" so that the client can become
 	// current; paces vary to exercise retargeting.
